@@ -48,13 +48,22 @@ SIG = {
                                [('hrp', 'List Char'), ('data', 'List Int'), ('spec', 'Int')], 'List Int'),
     'convertbits': ('bech32.py', 'convertbits',
                     [('data', 'List Int'), ('frombits', 'Int'), ('tobits', 'Int'), ('pad', 'Bool')], 'Option (List Int)'),
+    # the curve arithmetic of the bundled BIP340 reference code (points: None | (x, y))
+    'schnorr_point_add': ('schnorr.py', 'point_add', [('P1', 'Point'), ('P2', 'Point')], 'Point'),
+    'schnorr_point_mul': ('schnorr.py', 'point_mul', [('P', 'Point'), ('n', 'Int')], 'Point'),
+    'schnorr_lift_x': ('schnorr.py', 'lift_x', [('x', 'Int')], 'Point'),
+    'schnorr_has_even_y': ('schnorr.py', 'has_even_y', [('P', 'Point')], 'Bool'),
 }
+POINT = 'Option (Int × Int)'
+# module-level names visible to the functions of one file only (filled from the evaluated module)
+FILE_CONSTS = {}
 # `while` loops are translated with an explicit iteration bound (a Lean term over the variables in scope at loop
 # entry); running out of it raises PyErr.fellThrough, which no Python exception maps to - so a bound that is too
 # small shows up as a disagreement with the implementation and as an unprovable equivalence, never silently.
 WHILE_FUEL = {'convertbits': '(Int.toNat bits + 1)'}
 # return types of translated callees that are lists (for `+` -> `++`)
 LIST_RET = {'bech32_hrp_expand', 'bech32_create_checksum'}
+POINT_RET = {'point_add': 'schnorr_point_add', 'point_mul': 'schnorr_point_mul', 'lift_x': 'schnorr_lift_x'}
 CALLS = {'encode_varint': 'encode_varint', 'prepend_compact_size': 'prepend_compact_size',
          '_op_push_data': 'op_push_data', 'parse_compact_size': 'parse_compact_size',
          'bech32_polymod': 'bech32_polymod', 'bech32_hrp_expand': 'bech32_hrp_expand'}
@@ -79,8 +88,9 @@ def blit(b):
 
 
 class Tr:
-    def __init__(s, name):
-        s.name = name; s.tmp = 0; s.pre = []; s.declared = set()
+    def __init__(s, name, file=None):
+        s.name = name; s.tmp = 0; s.pre = []; s.declared = set(); s.points = set()
+        s.fconsts = FILE_CONSTS.get(file, {})
 
     def fail(s, n, why):
         raise Unsupported(f'{s.name}: line {getattr(n, "lineno", "?")}: unsupported {why}: {ast.dump(n)[:100]}')
@@ -96,6 +106,7 @@ class Tr:
             if n.value is None: return 'none'
             s.fail(n, 'constant')
         if isinstance(n, ast.Name):
+            if n.id in s.fconsts and n.id not in s.declared: return s.fconsts[n.id]
             if n.id in CONSTS and n.id not in s.declared: return CONSTS[n.id]
             if n.id == 'self': s.fail(n, 'bare self')
             return n.id
@@ -143,6 +154,8 @@ class Tr:
         if isinstance(n, ast.Compare) and len(n.ops) == 1:
             a, b = s.e(n.left), s.e(n.comparators[0])
             op = {ast.Lt: '<', ast.LtE: '≤', ast.Gt: '>', ast.GtE: '≥', ast.Eq: '==', ast.NotEq: '!='}.get(type(n.ops[0]))
+            if isinstance(n.ops[0], ast.Is) and b == 'none' and s.ispoint(n.left): return f'(Option.isNone {a})'
+            if isinstance(n.ops[0], ast.IsNot) and b == 'none' and s.ispoint(n.left): return f'(Option.isSome {a})'
             if isinstance(n.ops[0], ast.IsNot) and b == 'none': return 'true'
             if op in ('==', '!='): return f'({a} {op} {b})'
             if op: return f'(decide ({a} {op} {b}))'
@@ -196,6 +209,11 @@ class Tr:
             return n.id
         s.fail(n, 'iterable')
 
+    def ispoint(s, n):
+        if isinstance(n, ast.Name): return n.id in s.points or (n.id not in s.declared and s.fconsts.get(n.id, '').startswith('(some'))
+        if isinstance(n, ast.Call) and isinstance(n.func, ast.Name): return n.func.id in POINT_RET
+        return False
+
     def isbool(s, n):
         return (isinstance(n, (ast.Compare, ast.BoolOp)) or (isinstance(n, ast.UnaryOp) and isinstance(n.op, ast.Not))
                 or (isinstance(n, ast.Constant) and isinstance(n.value, bool)))
@@ -240,7 +258,7 @@ class Tr:
         if isinstance(n, (ast.Compare, ast.BoolOp)) or (isinstance(n, ast.UnaryOp) and isinstance(n.op, ast.Not)):
             return t
         if isinstance(n, ast.Constant) and isinstance(n.value, bool): return t
-        if isinstance(n, ast.Call) and isinstance(n.func, ast.Name) and n.func.id == 'isinstance': return t
+        if isinstance(n, ast.Call) and isinstance(n.func, ast.Name) and n.func.id in ('isinstance', 'is_infinite'): return t
         if isinstance(n, ast.Name) and n.id in s.boolvars: return t
         if isinstance(n, ast.Attribute) and 'self_' + n.attr in s.boolvars: return t
         if s.isbytes(n): return f'(!({t}).isEmpty)'
@@ -250,6 +268,12 @@ class Tr:
         f = n.func; args = [*n.args]; kw = {k.arg: k.value for k in n.keywords}
         if isinstance(f, ast.Name):
             if f.id in IDENT: return s.e(args[0])
+            if f.id in ('x', 'y') and f.id not in s.declared and len(args) == 1 and s.ispoint(args[0]) and 'p' in s.fconsts:
+                # schnorr.py's accessors: `assert not is_infinite(P); return P[0]` / `P[1]`
+                return s.eff(f'Py.pt{f.id.upper()} {s.e(args[0])}')
+            if f.id == 'is_infinite' and len(args) == 1 and s.ispoint(args[0]): return f'(Option.isNone {s.e(args[0])})'
+            if f.id == 'pow' and len(args) == 3: return s.eff(f'Py.powMod {s.e(args[0])} {s.e(args[1])} {s.e(args[2])}')
+            if f.id in POINT_RET and 'p' in s.fconsts: return s.eff(f'{POINT_RET[f.id]} ' + ' '.join(s.e(a) for a in args))
             if f.id == 'len':
                 if s.kind(args[0]) in ('ints', 'chars'): return f'((List.length {s.e(args[0])} : Nat) : Int)'
                 return f'(Py.len {s.e(args[0])})'
@@ -291,7 +315,10 @@ class Tr:
         if isinstance(st, ast.Pass): return []
         if isinstance(st, ast.Return):
             t = s.e(st.value) if st.value else '()'
-            if s.ret.startswith('Option') and t != 'none': t = f'(some {t})'
+            if s.ret == POINT:
+                if isinstance(st.value, ast.Tuple): t = f'(some {t})'
+                elif t != 'none' and not s.ispoint(st.value): s.fail(st, 'return of a non-point in a point function')
+            elif s.ret.startswith('Option') and t != 'none': t = f'(some {t})'
             return s.flush(ind) + [f'{ind}return {t}']
         if isinstance(st, ast.Raise): return [f'{ind}throw PyErr.{s.exc(st.exc)}']
         if isinstance(st, ast.Assert):
@@ -312,6 +339,9 @@ class Tr:
             if not isinstance(tg, ast.Name): s.fail(st, 'assignment target')
             k = s.kind(st.value)
             v = s.e(st.value); name = tg.id
+            if s.ispoint(st.value) or (v == 'none' and s.ret == POINT):
+                s.points.add(name)
+                if v == 'none': v = f'(none : {POINT})'
             if k == 'bytes': s.bytesvars.add(name)
             if k == 'ints': s.intlists.add(name)
             if s.isbool(st.value): s.boolvars.add(name)
@@ -392,6 +422,10 @@ class Tr:
         s.ret = ret; s.bytesvars = {p for p, t in params if t == 'Bytes'}; s.boolvars = {p for p, t in params if t == 'Bool'}
         s.intlists = {p for p, t in params if t == 'List Int'}; s.charlists = {p for p, t in params if t == 'List Char'}
         s.declared = {p for p, _ in params}; s.selfalias = set()
+        s.points = {p for p, t in params if t == 'Point'}
+        params = [(p, POINT if t == 'Point' else t) for p, t in params]
+        if ret == 'Point': ret = POINT
+        s.ret = ret
         # in __init__ the parameters are named without self_; `self.x` then refers to the same value
         ps = ' '.join(f'({p} : {t})' for p, t in params)
         pre = s.hoist(node, params)
@@ -403,6 +437,17 @@ class Tr:
                         return ast.copy_location(ast.Name(id=n.attr, ctx=ast.Load()), n)
                     return n
             node = R().visit(node)
+        # parameters that the body re-binds become mutable locals
+        rebound = []
+        for st in ast.walk(node):
+            tgs = []
+            if isinstance(st, ast.Assign): tgs = st.targets
+            if isinstance(st, ast.AugAssign): tgs = [st.target]
+            for tg in tgs:
+                for x in ([tg] if isinstance(tg, ast.Name) else getattr(tg, 'elts', [])):
+                    if isinstance(x, ast.Name) and x.id in {p for p, _ in params} and x.id not in rebound:
+                        rebound.append(x.id)
+        pre = [f'  let mut {r} := {r}' for r in rebound] + pre
         body = pre + s.block(node.body, '  ')
         last = node.body[-1]
         if not isinstance(last, (ast.Return, ast.Raise)):
@@ -492,7 +537,7 @@ def gen_codec():
         node = find(trees[file], qual)
         fps[name] = fingerprint(node)
         L.append(f'-- {file}: {qual}')
-        L.append(Tr(name).fn(node, params, ret))
+        L.append(Tr(name, file).fn(node, params, ret))
     L += ['end Gen', '']
     return '\n'.join(L), fps
 
@@ -523,6 +568,10 @@ def main():
         CONSTS['BECH32M_CONST'] = f'({b32.BECH32M_CONST} : Int)'
         for k in ('BECH32', 'BECH32M'):
             CONSTS[f'Encoding.{k}'] = f'({getattr(b32.Encoding, k).value} : Int)'
+        sch = mods['schnorr']
+        FILE_CONSTS['schnorr.py'] = {'p': f'({sch.p} : Int)', 'n': f'({sch.n} : Int)',
+                                     'G': f'(some (({sch.G[0]} : Int), ({sch.G[1]} : Int)) : {POINT})'}
+        if sch.DEBUG: raise Unsupported('schnorr.DEBUG is set: debug output is outside the translated subset')
         tables = gen_tables(mods)
         codec, fps = gen_codec()
     except Unsupported as ex:
